@@ -130,6 +130,9 @@ func goMinorVersion(ctx *build.Context) int {
 }
 
 // skipFile returns true if file should be skipped.
+// The file name rule is the one of go/build: only the last one or two
+// underscore separated elements of the name are considered, after removal of
+// everything following the first dot and of a trailing "_test".
 func skipFile(ctx *build.Context, p string, skipTest bool) bool {
 	if !strings.HasSuffix(p, ".go") {
 		return true
@@ -141,28 +144,36 @@ func skipFile(ctx *build.Context, p string, skipTest bool) bool {
 	if skipTest && strings.HasSuffix(p, "_test") {
 		return true
 	}
+	p, _, _ = strings.Cut(p, ".")
 	i := strings.Index(p, "_")
 	if i < 0 {
 		return false
 	}
 	a := strings.Split(p[i+1:], "_")
-	last := len(a) - 1
-	if last-1 >= 0 {
-		switch x, y := a[last-1], a[last]; {
-		case x == ctx.GOOS:
-			if knownArch[y] {
-				return y != ctx.GOARCH
-			}
-			return false
-		case knownOs[x] && knownArch[y]:
-			return true
-		case knownArch[y] && y != ctx.GOARCH:
-			return true
-		default:
-			return false
-		}
+	if n := len(a); n > 0 && a[n-1] == "test" {
+		a = a[:n-1]
 	}
-	if x := a[last]; knownOs[x] && x != ctx.GOOS || knownArch[x] && x != ctx.GOARCH {
+	n := len(a)
+	if n >= 2 && knownOs[a[n-2]] && knownArch[a[n-1]] {
+		return !(matchOSArch(ctx, a[n-1]) && matchOSArch(ctx, a[n-2]))
+	}
+	if n >= 1 && (knownOs[a[n-1]] || knownArch[a[n-1]]) {
+		return !matchOSArch(ctx, a[n-1])
+	}
+	return false
+}
+
+// matchOSArch returns true if s is the target GOOS or GOARCH, or a GOOS
+// implied by the target one.
+func matchOSArch(ctx *build.Context, s string) bool {
+	switch {
+	case s == ctx.GOOS || s == ctx.GOARCH:
+		return true
+	case ctx.GOOS == "android" && s == "linux":
+		return true
+	case ctx.GOOS == "illumos" && s == "solaris":
+		return true
+	case ctx.GOOS == "ios" && s == "darwin":
 		return true
 	}
 	return false
@@ -174,30 +185,44 @@ var knownOs = map[string]bool{
 	"darwin":    true,
 	"dragonfly": true,
 	"freebsd":   true,
+	"hurd":      true,
 	"illumos":   true,
 	"ios":       true,
 	"js":        true,
 	"linux":     true,
+	"nacl":      true,
 	"netbsd":    true,
 	"openbsd":   true,
 	"plan9":     true,
 	"solaris":   true,
 	"wasip1":    true,
 	"windows":   true,
+	"zos":       true,
 }
 
 var knownArch = map[string]bool{
-	"386":      true,
-	"amd64":    true,
-	"arm":      true,
-	"arm64":    true,
-	"loong64":  true,
-	"mips":     true,
-	"mips64":   true,
-	"mips64le": true,
-	"mipsle":   true,
-	"ppc64":    true,
-	"ppc64le":  true,
-	"s390x":    true,
-	"wasm":     true,
+	"386":         true,
+	"amd64":       true,
+	"amd64p32":    true,
+	"arm":         true,
+	"armbe":       true,
+	"arm64":       true,
+	"arm64be":     true,
+	"loong64":     true,
+	"mips":        true,
+	"mipsle":      true,
+	"mips64":      true,
+	"mips64le":    true,
+	"mips64p32":   true,
+	"mips64p32le": true,
+	"ppc":         true,
+	"ppc64":       true,
+	"ppc64le":     true,
+	"riscv":       true,
+	"riscv64":     true,
+	"s390":        true,
+	"s390x":       true,
+	"sparc":       true,
+	"sparc64":     true,
+	"wasm":        true,
 }
